@@ -101,6 +101,11 @@ func directedMixes() [][]string {
 		{"@slot", "Parse.fast", "Parse.slow", "Notify", "purge", "purge", "Capture", "Release"},
 		{"@full", "Parse.fast", "Notify", "purge", "Close"},
 		// concurrent encoders with their own buffers vs the sequential results; pooled senders after error paths
+		// every runtime-settable log level flips between off and Info while every frame is a host creation or an
+		// online/offline transition (purge with a late clock takes the hosts offline again)
+		{"@toggle", "Parse.fast", "Parse.slow", "Notify", "purge", "purge"},
+		{"@toggle", "Parse.fast", "Notify", "DHCPv4Update", "purge", "arp.ProcessPacket", "arp.StartHunt", "arp.StopHunt"},
+		{"@toggle", "Parse.slow", "Notify.dhcp", "purge", "dhcp4.ProcessPacket", "icmp6.ProcessPacket.RA", "icmp6.StartHunt", "icmp6.StopHunt", "dns.ProcessDNS"},
 		{"@encpar"},
 		{"@encpar", "Parse.fast", "purge"},
 		{"Close", "Close", "Notify", "purge", "Parse.fast"},
@@ -353,6 +358,10 @@ func childMain() {
 	if mode == "@encpar" {
 		encMain(c, rng)
 	}
+	if mode == "@toggle" {
+		go toggler(rng.Fork())
+		base++
+	}
 	var stuck int32
 	switch mode {
 	case "":
@@ -361,7 +370,7 @@ func childMain() {
 			for range c.s.C {
 			}
 		}()
-	case "@encpar":
+	case "@encpar", "@toggle":
 		go func() {
 			for range c.s.C {
 			}
